@@ -626,6 +626,7 @@ class TransactionBody(MapCBORSerializable):
     )
 
     def validate(self):
+        super().validate()
         if (
             self.mint
             and self.mint.count(lambda p, n, v: v < _MIN_INT64 or v > _MAX_INT64) > 0
